@@ -48,13 +48,31 @@ def case(spec):
         start = chain[0][0] + 1     # the first block only serves as the linked predecessor record
     log = os.path.join(work, "ev.jsonl")
     dump = harness.fresh(os.path.join(work, "o"))
-    p = harness.run_cb(binary, d, coin, "csvdump", dump, start, None, verify=verify, log=log, timeout=600)
+    runas = None
+    if spec.get("owner") and os.geteuid() == 0:
+        # the node's files belong to the node's account (bitcoind runs as `bitcoin`), the analyst has read access and runs the tool under
+        # another, unprivileged account: same bytes, same layout, same result. The index copy, dump folder and scratch files are the analyst's.
+        node, analyst = (64001, 64001), (64002, 64002)
+        roots = [d] + ([os.path.abspath(d).rstrip("/") + ".elsewhere"] if os.path.isdir(os.path.abspath(d).rstrip("/") + ".elsewhere") else [])
+        for root in roots:
+            for dp, dns, fns in os.walk(root):
+                mine = os.path.basename(dp) == "index" or "/index/" in dp + "/"
+                os.chown(dp, *(analyst if mine else node))
+                for fn in fns:
+                    fp = os.path.join(dp, fn)
+                    os.chown(fp, *(analyst if mine else node), follow_symlinks=False)
+                    if not os.path.islink(fp) and not mine:
+                        os.chmod(fp, 0o644)
+        for pth in (work, dump):
+            os.chown(pth, *analyst)
+        runas = analyst
+    p = harness.run_cb(binary, d, coin, "csvdump", dump, start, None, verify=verify, log=log, timeout=600, **({"user": runas} if runas else {}))
     v = []
     bad = oracles.check_csvdump(p, dump, chain, coin, start or 0, None)
     v.extend(viol(sig, "%s [layout=%s coin=%s]" % (det, desc, coin)) for sig, det in bad)
     ev = harness.read_events(log)
     fetches = [e for e in ev if e["ev"] == "fetch"]
-    counters = {"runs": 1, "fetch_events": len(fetches), "xor_obfuscated_layouts": 1 if xor_key else 0}
+    counters = {"runs": 1, "fetch_events": len(fetches), "xor_obfuscated_layouts": 1 if xor_key else 0, "runs_as_another_user_than_the_files_owner": 1 if runas else 0}
     byh = {h: i for i, (h, b) in enumerate(chain)}
     sizes = {h: len(b.ser()) for h, b in chain}
     for e in fetches:
@@ -212,8 +230,8 @@ def plan(chk):
         for L in lays:
             n += 1
             specs.append(dict(case="case", coin=coin, chain_seed=chk.seed * 1000 + c, n=n, layout=L, base=base, blocks=blocks,
-                              verify=(n % 2 == 0), also_unspent=(n % 5 == 0), shuffle_index=(n % 3 == 0), xor=(n % 4 == 1),
-                              profile="debug" if n % 11 == 0 else "release"))
+                              verify=(n % 2 == 0), also_unspent=(n % 5 == 0) and n % 7 != 3, shuffle_index=(n % 3 == 0), xor=(n % 4 == 1),
+                              owner=(n % 7 == 3), profile="debug" if n % 11 == 0 else "release"))
     # content kinds of the other checks x layouts x obfuscation x all callbacks
     kinds = ["auxpow", "history", "stats", "hostile", "opreturn"]
     lays = [dict(assign="round_robin", nfiles=3), dict(assign="random", nfiles=4, gaps="random"), dict(assign="reversed", nfiles=2, gaps="zeros"),
